@@ -492,6 +492,42 @@ def rule_is_unique_rule(ctx):
     decide(ctx, "O9.7", "IsUnique rule automaton", "cutplace.checks.IsUniqueCheck.__init__", cell, min_cells=8, key_name="IsUnique rule")
 
 
+# ------------------------------------------------------------------------------------------------- O9.7b
+def rule_distinct_count_rule(ctx):
+    """DistinctCount rule: starts with a declared field name on its first line, the rest must evaluate to a boolean."""
+    model = ctx.model
+    ctx.res.minimum("O9.7b", 1)
+    qualname = "cutplace.checks.DistinctCountCheck.__init__"
+
+    def cell(ch):
+        first = ch.choose("first token", ["declared name", "unknown name", "number", "operator", "end"])
+        end_line = ch.choose("line where the name ends", [1, 2]) if first in ("declared name", "unknown name") else 1
+        evaluation = ch.choose("expression", ["True", "False", "number", "raises"]) if first == "declared name" and end_line == 1 else "True"
+        token_of = {"declared name": (NAME, "b"), "unknown name": (NAME, "zz"), "number": (NUMBER, "1"), "operator": (OP, ">"), "end": (END, "")}
+        type_code, text = token_of[first]
+        sequence = [(type_code, text, (end_line, 0), (end_line, len(text)), ""), (END, "", (end_line, 9), (end_line, 9), "")]
+
+        def eval_hook(interp_, args, kwargs):
+            if evaluation == "raises":
+                interp_.raise_("builtins.SyntaxError", "invalid syntax")
+            return {"True": True, "False": False, "number": 3}[evaluation]
+
+        interp = Interp(model, ch, stubs={"cutplace._tools.generated_tokens": stub(lambda i, a, k: AbsIter(
+            lambda index: sequence[index] if index < len(sequence) else AbsIter.STOP, "tokens"))}, externals={"builtins.eval": eval_hook})
+        world = World(model, interp, ch)
+        check = Obj(model.cls("cutplace.checks.DistinctCountCheck"), {})
+        try:
+            interp.call_function(model.func(qualname), [check, "distinct", "b >= 2", ["a", "b"], world.location()], {}, None)
+            outcome = ("accepted", check.attrs.get("_field_name_to_count"), check.attrs.get("_expression"))
+        except AbsRaise as raised:
+            outcome = "raise " + exc_name(raised.value)
+        ok = first == "declared name" and end_line == 1 and evaluation in ("True", "False")
+        expected = ("accepted", "b", "count >= 2") if ok else "raise InterfaceError"
+        return ("first=%s line=%d expression=%s" % (first, end_line, evaluation), outcome, expected)
+
+    decide(ctx, "O9.7b", "DistinctCount rule", qualname, cell, min_cells=10)
+
+
 # ------------------------------------------------------------------------------------------------- O9.5
 def rule_located_errors(ctx):
     """Every raise of InterfaceError reachable from Cid.read has a location or is wrapped by the field-construction handler."""
@@ -571,4 +607,4 @@ def rule_located_errors(ctx):
                              "InterfaceError raised without a location on a path from Cid.read that no handler completes: the rejection does not name the offending row")
 
 
-RULES = [rule_row_dispatch, rule_row_order, rule_field_names, rule_field_row, rule_check_row, rule_is_unique_rule, rule_located_errors]
+RULES = [rule_row_dispatch, rule_row_order, rule_field_names, rule_field_row, rule_check_row, rule_is_unique_rule, rule_distinct_count_rule, rule_located_errors]
